@@ -44,7 +44,7 @@ RULE = ("a case = (script, fault map): the script fixes mode (foreground/daemon,
         "steps (each family's set-up and restore, hosts file, resolver cache, STARTED write) and pairs of them — "
         "every family that was set up must have its restore attempted; the real ssh.connect() with a real child "
         "standing in for ssh (sync string + ROUTES, idle or busy, then exit 0 / exit 255 / SIGKILL), real socketpair, "
-        "real select, real listeners, under a 3 s watchdog — the client must end with Fatal and close the helper "
+        "real select, real listeners, under a 20 s watchdog (a failing case is re-run once with 40 s before it is reported) — the client must end with Fatal and close the helper "
         "channel; init strings next to the genuine one (every "
         "single-byte substitution by digits/sign/underscore/blank/CR/LF/TAB/NUL, truncations, other spellings "
         "of the version) each followed by a good ROUTES frame, and each with nothing after the 12 bytes (the ssh "
@@ -124,7 +124,7 @@ class _Stuck(BaseException):
 T0 = 1700000000.0          # fake clock origin (s)
 TICK = 0.001               # every top-level select costs this much fake time
 WATCHDOG_S = 20            # wall clock per run (shrinks after the first hit, see watchdog_seconds)
-REALSSH_WATCHDOG_S = 3.0   # wall clock for a session against a real stand-in ssh child
+REALSSH_WATCHDOG_S = 20.0  # wall clock for a session against a real stand-in ssh child (doubled on the retry)
 EOF_READ_BUDGET = 300      # reads of the ssh pipe after it reached EOF
 CALL_BUDGET = 60000        # boundary calls per run
 EVENT_BUDGET = 200000      # trace entries per run
@@ -643,7 +643,7 @@ def _mods():
     return ssnet, client, helpers, ssh, sdnotify, BaseMethod
 
 
-def run_real(script, faults, realfw=False, level=None, realssh=False):
+def run_real(script, faults, realfw=False, level=None, realssh=False, watchdog_s=None):
     """Run the real client.main on the scripted world.  Returns (events, outcome, world).
     `realfw`: the real FirewallClient (__init__/setup/start/done) over a real socketpair to a
     HelperStandIn instead of the recording subclass."""
@@ -839,7 +839,7 @@ def run_real(script, faults, realfw=False, level=None, realssh=False):
         client.time = s_time
         client.MultiListener = OrigListener
         ssnet.set_non_blocking_io = ssnet._c12_real_set_non_blocking_io
-        signal.setitimer(signal.ITIMER_REAL, REALSSH_WATCHDOG_S)
+        signal.setitimer(signal.ITIMER_REAL, watchdog_s or REALSSH_WATCHDOG_S)
     # order matters: a garbage collection in between must not log to the real stderr
     sys.stderr = EioStderr() if w.level == 13 else io.StringIO()
     sys.stdout = Stdout(w)
@@ -1834,8 +1834,9 @@ def realssh_cases(ssnet, seed, thorough):
     return out
 
 
-def oracle_realssh(s, ev, outcome, w):
+def oracle_realssh(s, ev, outcome, w, watchdog_s=None):
     bad = []
+    wd = watchdog_s or REALSSH_WATCHDOG_S
     st = s['standin']
     what = 'stand-in ssh (%s, %s tunnel) exit status %r' % (st['mode'], 'busy' if st['busy'] else 'idle', w.child_status)
     if 'ready' not in ev and not w.stuck and outcome != 'exc=fatal':
@@ -1844,7 +1845,7 @@ def oracle_realssh(s, ev, outcome, w):
     if w.stuck or outcome != 'exc=fatal' or 'close' not in ev:
         bad.append(('C12:real-ssh:death-not-noticed',
                     'after the real ssh child has exited the client ends with Fatal within %.0f s and closes the helper channel'
-                    % REALSSH_WATCHDOG_S,
+                    % wd,
                     '%s; client %s, outcome %s, pfile %s; tail of trace: %s'
                     % (what, ('aborted by the watchdog (%s)' % w.stuck[0]) if w.stuck else 'ended', outcome,
                        'closed' if ('close' in ev and not w.stuck) else 'open at that time', ' '.join(ev[-14:]))))
@@ -1863,9 +1864,25 @@ def realssh_stream(ctx):
         ctx.hist('real-ssh')
         ctx.hist('real-ssh:%s:%s' % (s['standin']['mode'], 'busy' if s['standin']['busy'] else 'idle'))
         ctx.mark(('realssh', repr(s['standin'])), nontrivial=True)
-        for key, exp, obs in oracle_realssh(s, ev, outcome, w):
-            ctx.violation(key, case=dict(realssh=True, script=ser_script(s), faults={}, level=w.level),
-                          expected=exp, observed=obs, kind='history')
+        bad = oracle_realssh(s, ev, outcome, w)
+        retried = False
+        if bad:
+            # a real child and a real select under a wall-clock bound: a loaded machine must not turn into a
+            # false alarm — the case is run once more with the watchdog doubled and reported only if it fails again
+            retried = True
+            ctx.hist('real-ssh:retried')
+            first = '; '.join(b[0] for b in bad)
+            ev, outcome, w = run_real(s, {}, realssh=True, level=w.level, watchdog_s=2 * REALSSH_WATCHDOG_S)
+            ctx.count()
+            bad = oracle_realssh(s, ev, outcome, w, watchdog_s=2 * REALSSH_WATCHDOG_S)
+            ctx.notes.append('real-ssh case %r: first run reported %s; retry with a %.0f s watchdog %s'
+                             % (s['standin'], first, 2 * REALSSH_WATCHDOG_S, 'failed again' if bad else 'passed'))
+        for key, exp, obs in bad:
+            ctx.violation(key, case=dict(realssh=True, script=ser_script(s), faults={}, level=w.level, retried=retried,
+                                         watchdog_s=2 * REALSSH_WATCHDOG_S),
+                          expected=exp, observed=obs + ' (second run, watchdog doubled)', kind='history')
+        if bad:
+            break      # one confirmed case is enough; every further one would cost two more watchdog periods
         ctx.sample(dict(stream='real ssh.connect + real child', standin=s['standin'],
                         real_code_trace=' '.join(ev[-16:]) + ' ' + outcome), limit=12)
     gc.collect()
@@ -1941,8 +1958,9 @@ def replay(ctx, rep):
     faults = {int(k): v for k, v in case['faults'].items()}
     level = case.get('level', 0)
     if case.get('realssh'):
-        ev, outcome, w = run_real(s, {}, realssh=True, level=level)
-        bad = oracle_realssh(s, ev, outcome, w)
+        wd = case.get('watchdog_s')
+        ev, outcome, w = run_real(s, {}, realssh=True, level=level, watchdog_s=wd)
+        bad = oracle_realssh(s, ev, outcome, w, watchdog_s=wd)
         return bool(bad), 'trace: %s %s; oracle: %s' % (' '.join(ev[-20:]), outcome,
                                                         '; '.join('%s (%s)' % (b[0], b[2][:200]) for b in bad) or 'silent')
     if case.get('realfw'):
